@@ -67,6 +67,8 @@ impl GdsSwarm {
 const MARKUP_SPECIALS: &[&str] = &[
     "\"", "'", ":", "#", "\\", "-", "?", "|", ">", "%", "@", "&", "*", "!", "{", "}", "[", "]", ",", " ", "  ", "\t", "\n", "~", "null", "true", "false", "1e3", "0x10", "1.0", "yes", "no", "é", "日本", "😀", ": ",
     " #", "- ", "\\n", "\\\"", "---", "...", "=", "<<", "`", "_", ".", "0", "-1", "+1", "1_000", ".inf", ".nan", "0o7", "12:30", "2001-01-01",
+    // white space that is not ASCII (leading / trailing positions matter to trimming code)
+    "\u{a0}", "\u{3000}", "\u{2003}", "\u{b}", "\u{c}",
 ];
 
 pub fn gen_string(t: &mut Tape, sw: &GdsSwarm) -> String {
@@ -113,6 +115,8 @@ pub fn gen_string(t: &mut Tape, sw: &GdsSwarm) -> String {
                 t.range(2, 12)
             } else if cat < 97 || !sw.long_strings {
                 t.range(13, 200)
+            } else if t.chance(1, 2) {
+                *t.pick(&[4095u64, 4096, 8187, 8188, 8192, 16384, 32763, 32764])
             } else {
                 // around the record limit: payload 65531 is the longest that fits (len+4 <= 65535, even)
                 *t.pick(&[65529u64, 65530, 65531, 65532, 65533, 70000])
@@ -222,6 +226,9 @@ fn gen_pt(t: &mut Tape, sw: &GdsSwarm) -> GdsPoint {
 fn gen_pts(t: &mut Tape, sw: &GdsSwarm) -> Vec<GdsPoint> {
     let n = if sw.oversize && t.chance(1, 3) {
         *t.pick(&[8190u64, 8191, 8192, 8193, 9000])
+    } else if sw.long_strings && t.chance(1, 6) {
+        // records of a few KiB up to just under the limit (buffer-size boundaries inside one record)
+        *t.pick(&[1023u64, 1024, 1025, 2048, 4095, 4096, 5000, 8000])
     } else {
         t.draw(sw.max_pts + 1)
     };
